@@ -9,7 +9,7 @@ MUTANTS = [
     {'name': 'importer passes wrong ppq to adjust_time', 'file': 'partitura/io/importmidi.py', 'old': '            control["time"] = adjust_time(control["time_tick"], tempo_changes, ppq)', 'new': '            control["time"] = adjust_time(control["time_tick"], tempo_changes, 480)', 'expect': 'CLOCK'},
     {'name': 'header tempo constant', 'file': 'partitura/io/exportmidi.py', 'old': '            track.append(MetaMessage("set_tempo", tempo=mpq, time=0))', 'new': '            track.append(MetaMessage("set_tempo", tempo=500000, time=0))', 'expect': 'CLOCK'}]
 
-NEUTRALS = [{'name': 'sort tempo changes with sorted()', 'file': 'partitura/io/importmidi.py', 'old': '    tempo_changes.sort(key=lambda tc: tc[0])', 'new': '    tempo_changes = sorted(tempo_changes, key=lambda tc: tc[0])'}]
+NEUTRALS = [{'name': 'first-track guard as j < 1', 'file': 'partitura/io/exportmidi.py', 'old': '        if j == 0:\n            track.append(MetaMessage("set_tempo"', 'new': '        if j < 1:\n            track.append(MetaMessage("set_tempo"'}, {'name': 'sort tempo changes with sorted()', 'file': 'partitura/io/importmidi.py', 'old': '    tempo_changes.sort(key=lambda tc: tc[0])', 'new': '    tempo_changes = sorted(tempo_changes, key=lambda tc: tc[0])'}]
 
 # changes made by sub-agents that were given only the property text (see /verif/seeded/<id>/): each must stay reported
 SEEDED = [
